@@ -973,6 +973,8 @@ func Handle(in []byte) any {
 		runByName(&c, out)
 	case "fuseconc":
 		runFuseConc(&c, out)
+	case "farread":
+		runFarRead(&c, out)
 	default:
 		out.Note = "unknown kind"
 	}
